@@ -1,5 +1,5 @@
 SPECIFICATION Spec
-CONSTANT Fams = {"exp1", "ps2", "multi", "eof", "jobs", "read"}
+CONSTANT Fams = {"eof"}
 CONSTANT Deep = 0
 CONSTANT Variant = "noreset"
 INVARIANT Refute
